@@ -27,6 +27,7 @@ DumpsVerdict(m, hex, kind, bytes) ==
     ELSE CASE L.k = "ok"   -> IF kind # "ok" THEN "dumps-refused-a-representable-message"
                               ELSE IF bytes # L.b THEN "layout-bytes-differ" ELSE ""
            [] L.k = "over" -> IF kind = "ok" THEN "dumps-emitted-an-overlength-value" ELSE ""
+           [] L.k = "unenc" -> IF kind = "ok" THEN "dumps-emitted-text-outside-the-code-page" ELSE ""
            [] OTHER        -> ""
 
 EvDumps == /\ Ev.op = "dumps"
